@@ -48,7 +48,18 @@ Canonical    == {"valid", "valid2"}
 OtherEncoded == {"upper", "v27"}
 Genuine      == Canonical \cup OtherEncoded
 Forged       == {"otherkey", "othermsg", "random", "short", "long", "noprefix", "nothex", "empty"}
-SigKinds     == Genuine \cup Forged
+(* Over-long accounts.  An account address on this chain may be longer than 20 bytes (bech32 of up to 255 bytes), while
+   keys control 20-byte addresses.  A submission may name as `account` a byte string that merely CONTAINS addresses of the
+   universe; o.tgt is then the other address involved ("victim"), o.sub the submitter:
+     L_ts_s  account = tgt || sub      signed by sub's key        L_ts_t  the same, signed by tgt's key
+     L_st_s  account = sub || tgt      signed by sub's key        L_st_t  the same, signed by tgt's key
+     L_32_s  account = tgt[0..11] || sub (32 bytes), by sub's key  L_32_t  account = sub[0..11] || tgt, by tgt's key
+   Whether such a submission is taken (for the over-long account itself) is not the property's business: any outcome,
+   and when executed it costs and burns the fee like any other.  What the property demands: NO 20-byte address becomes
+   proven by it - a proof for address a is stored only with a signature by a's key over the fixed message, and none of
+   these is a submission for a 20-byte address. *)
+LongForms    == {"L_ts_s", "L_ts_t", "L_st_s", "L_st_t", "L_32_s", "L_32_t"}
+SigKinds     == Genuine \cup Forged \cup LongForms
 
 (* what the store holds after a submission with sig was executed *)
 Stored(sig) == IF sig = "upper" THEN "valid" ELSE sig
@@ -89,7 +100,8 @@ SubmitRegular(st, o) ==
   ELSE {"ok"}
 
 SubmitOutcomes(st, o) ==
-  IF o.sig \in Forged THEN {"refused", "failed"}            \* P: stored only with a signature by the key controlling the address over the fixed message
+  IF o.sig \in LongForms THEN {"refused", "failed"} \cup (IF st.q[o.sub] >= 1 THEN {"ok"} ELSE {})   \* not the property's business
+  ELSE IF o.sig \in Forged THEN {"refused", "failed"}            \* P: stored only with a signature by the key controlling the address over the fixed message
   ELSE IF o.sub = o.tgt THEN {"refused", "failed"} \cup SubmitRegular(st, o)   \* D: x/vauth refuses submitter = account; the property is silent
   ELSE IF o.sig \in OtherEncoded THEN {"refused", "failed"} \cup SubmitRegular(st, o)  \* D: only the canonical encoding has to be taken
   ELSE SubmitRegular(st, o)
@@ -104,7 +116,9 @@ CreateOutcomes(st, o) ==
 Adm(st, o) == IF o.op = "Submit" THEN SubmitOutcomes(st, o) ELSE CreateOutcomes(st, o)
 
 Eff(st, o, out) ==
-  IF out = "ok" /\ o.op = "Submit" THEN
+  IF out = "ok" /\ o.op = "Submit" /\ o.sig \in LongForms THEN
+     [st EXCEPT !.q[o.sub] = @ - 1, !.burnt = @ + 1]        \* P: the 20-byte addresses' proofs do not change
+  ELSE IF out = "ok" /\ o.op = "Submit" THEN
      [st EXCEPT !.proof[o.tgt] = Stored(o.sig), !.q[o.sub] = @ - 1, !.burnt = @ + 1]
   ELSE IF out = "ok" /\ o.op = "Create" THEN
      [st EXCEPT !.kind[o.to] = o.kind]
@@ -163,7 +177,10 @@ CostExact ==
       \/ /\ burnt' = burnt + 1
          /\ \E s \in Funded, a \in Addr :
                /\ q[s] >= 1 /\ q' = [q EXCEPT ![s] = @ - 1]
-               /\ proof[a] = "none" /\ proof'[a] # "none" /\ \A b \in Addr \ {a} : proof'[b] = proof[b] ]_vars
+               /\ proof[a] = "none" /\ proof'[a] # "none" /\ \A b \in Addr \ {a} : proof'[b] = proof[b]
+      (* an executed submission for an over-long account: paid and burnt alike, no 20-byte address proven *)
+      \/ /\ burnt' = burnt + 1 /\ proof' = proof
+         /\ \E s \in Funded : q[s] >= 1 /\ q' = [q EXCEPT ![s] = @ - 1] ]_vars
 
 (* "a rejected submission stores nothing and burns nothing" (and a refused creation creates nothing) *)
 RejectedChangesNothing == \A o \in Ops : \A out \in Adm(St, o) \ {"ok"} : Eff(St, o, out) = St
